@@ -1,6 +1,7 @@
 package main
 
 import (
+	"encoding/base64"
 	"encoding/json"
 	"fmt"
 	"net"
@@ -65,7 +66,7 @@ func genAAOps(rc *RunCtx, c AACfg) []Op {
 		if r.Chance(1, 4) {
 			ops = append(ops, Op{Uid: i, Kind: "config", A: int64(r.Intn(8)), B: int64(r.Intn(2))})
 		} else {
-			ops = append(ops, Op{Uid: i, Kind: "mutate", A: int64(r.Intn(10)), B: int64(r.Intn(3))})
+			ops = append(ops, Op{Uid: i, Kind: "mutate", A: int64(r.Intn(11)), B: int64(r.Intn(3))})
 		}
 	}
 	return ops
@@ -210,7 +211,7 @@ func adminAppWorld(rc *RunCtx) {
 			if header == other {
 				other = "X-Remote-User"
 			}
-			switch op.A % 10 {
+			switch op.A % 11 {
 			case 0:
 			case 1:
 				hdr = map[string]string{header: ""}
@@ -228,6 +229,8 @@ func adminAppWorld(rc *RunCtx) {
 				hdr, isAdmin = map[string]string{header: "somebody-else"}, admin("somebody-else")
 			case 9:
 				hdr = map[string]string{header: "Alice"}
+			case 10:
+				hdr = map[string]string{"Authorization": "Basic " + base64.StdEncoding.EncodeToString([]byte("alice:secret"))}
 			}
 			allowed := len(cfg.Admins) == 0 || isAdmin
 			var method, path string
